@@ -168,7 +168,7 @@ def execOp (line : String) : String :=
         | none => bad
       | _ => bad
     match base with
-    | "dec" => withHex fun b =>
+    | "dec" | "decp" => withHex fun b =>
         match subDec kind b with
         | some s => s
         | none => match kindOfName kind with
@@ -204,6 +204,29 @@ def execOp (line : String) : String :=
     | "rt" => withPkts rtLine
     | "reenc" => withHex reencLine
     | "relay" => withHex relayLine
+    | "rembto" =>
+        match args.reverse with
+        | bl :: restRev =>
+          match bl.toNat?, run (pBody .remb) restRev.reverse with
+          | some n, some (.remb p) =>
+            if p.ssrcs.length > 255 then "err"
+            else if n < p.marshalSize then "err"
+            else match p.enc with
+              | .ok b => s!"ok {b.length} {hexOf b}"
+              | .err => "err"
+              | .panic => "panic"
+              | .diverge => "diverge"
+          | _, _ => bad
+        | _ => bad
+    | "newcname" => match args with
+        | [ssrc, h] => match ssrc.toNat?, unhex h with
+          | some s, some t =>
+            "ok " ++ join (wBody (.sdes { chunks := [{ source := s, items := [{ type := 1, text := t }] }] }))
+          | _, _ => bad
+        | _ => bad
+    | "itemlen" => match run pItem args with
+        | some i => s!"ok {2 + i.text.length}"
+        | none => bad
     | "crt" => withPkts fun ps =>
         match cenc ps with
         | .ok b => match cdec b with
